@@ -275,8 +275,8 @@ pub fn drain<T: Q, const N: usize>(pre: Pre, forget: bool) {
 // ------------------------------------------------------------------------------------
 // C06: sorted consumption
 // ------------------------------------------------------------------------------------
-pub fn sorted_iter<T: Q, const N: usize>() {
-    let (q, gh, want0) = pre_state::<T, N>(Pre::Inv, Tables::Any);
+pub fn sorted_iter<T: Q, const N: usize>(tables: Tables) {
+    let (q, gh, want0) = pre_state::<T, N>(Pre::Inv, tables);
     let mut it = q.into_sorted_iter_q();
     let mut seen: u16 = 0;
     let mut yielded = 0usize;
@@ -325,8 +325,8 @@ pub fn sorted_iter<T: Q, const N: usize>() {
 }
 
 /// into_sorted_vec / into_descending_sorted_vec (asc = false), into_ascending_sorted_vec
-pub fn sorted_vec<T: Q, const N: usize>(asc: bool) {
-    let (q, _gh, want0) = pre_state::<T, N>(Pre::Inv, Tables::Any);
+pub fn sorted_vec<T: Q, const N: usize>(asc: bool, tables: Tables) {
+    let (q, _gh, want0) = pre_state::<T, N>(Pre::Inv, tables);
     let v = if asc { q.into_asc_vec() } else { q.into_desc_vec() };
     assert!(v.len() == N, "SORT: sorted vector holds every item");
     let mut seen: u16 = 0;
